@@ -319,4 +319,733 @@ Definition atom (o : opts) (k : kind) (t : text) : text :=
   | _ => t'
   end.
 
-(* END-OF-PART *)
+(* ------------------------------------------------------------------ *)
+(* token trees (tokens.py:18 class G) *)
+Inductive delim := DParen | DBrack | DBrace.
+Inductive item :=
+| Tok (s : text)
+| Grp (d : delim) (items : list item).
+
+Definition delim_eqb (a b : delim) : bool :=
+  match a, b with DParen, DParen | DBrack, DBrack | DBrace, DBrace => true | _, _ => false end.
+Definition open_text (d : delim) : text :=
+  match d with DParen => s_lparen | DBrack => s_lbrack | DBrace => s_lbrace end.
+Definition close_text (d : delim) : text :=
+  match d with DParen => s_rparen | DBrack => s_rbrack | DBrace => s_rbrace end.
+(* t in OPEN *)
+Definition open_of (t : text) : option delim :=
+  match t with
+  | [40] => Some DParen | [91] => Some DBrack | [123] => Some DBrace | _ => None
+  end.
+
+(* tokens.py:101 is_tok, tokens.py:105 is_ident *)
+Definition is_tok (x : item) (s : text) : bool :=
+  match x with Tok t => eqb_text t s | Grp _ _ => false end.
+Definition is_tok_o (x : option item) (s : text) : bool :=
+  match x with Some y => is_tok y s | None => false end.
+Definition is_ident (x : item) : bool :=
+  match x with Tok t => is_ident_text t | Grp _ _ => false end.
+Definition is_grp (x : item) (d : delim) : bool :=
+  match x with Grp d' _ => delim_eqb d' d | Tok _ => false end.
+Definition is_grp_o (x : option item) (d : delim) : bool :=
+  match x with Some y => is_grp y d | None => false end.
+(* x is a string belonging to l *)
+Definition tok_in (x : item) (l : list text) : bool :=
+  match x with Tok t => mem_text t l | Grp _ _ => false end.
+
+(* tokens.py:76 tree.  cur: the items of the innermost open group, reversed; stack: for each open group its
+   delimiter and the (reversed) items of the enclosing one.  The regex of the float case is
+   digits dot digits dollar. *)
+Definition float_split (t : text) : option (text * text) :=
+  let (a, r) := span is_digit t in
+  match a, r with
+  | _ :: _, 46 :: b =>
+      let (b1, r2) := span is_digit b in
+      match b1 with
+      | [] => None
+      | _ => if at_dollar r2 then Some (a, b) else None
+      end
+  | _, _ => None
+  end.
+
+Definition tree_step (o : opts) (st : list item * list (delim * list item)) (kt : tok)
+  : list item * list (delim * list item) :=
+  let (cur, stack) := st in
+  let (k, t) := kt in
+  let plain := (Tok (match k with Kp => t | _ => atom o k t end) :: cur, stack) in
+  match k with
+  | Kp =>
+      match open_of t with
+      | Some d => ([], (d, cur) :: stack)
+      | None =>
+          match stack with
+          | (d, parent) :: stack' =>
+              if eqb_text (close_text d) t then (Grp d (rev cur) :: parent, stack') else plain
+          | [] => plain
+          end
+      end
+  | Klit LFloat =>
+      match float_split t, cur with
+      | Some (a, b), p1 :: more =>
+          if is_tok p1 s_dot && negb (match more with p2 :: _ => is_tok p2 s_dot | [] => false end)
+          then (Tok b :: Tok s_dot :: Tok a :: cur, stack) else plain
+      | _, _ => plain
+      end
+  | _ => plain
+  end.
+Fixpoint tree_unwind (cur : list item) (stack : list (delim * list item)) : list item :=
+  match stack with
+  | [] => cur
+  | (d, parent) :: stack' => tree_unwind (cur ++ Tok (open_text d) :: parent) stack'
+  end.
+Definition tree (o : opts) (toks : list tok) : list item :=
+  let (cur, stack) := fold_left (tree_step o) toks ([], []) in
+  rev (tree_unwind cur stack).
+
+(* tokens.py:109 split_top (generic in the element type: also used on annotated items) *)
+Fixpoint split_on {A : Type} (p : A -> bool) (cur : list A) (l : list A) : list (list A) :=
+  match l with
+  | [] => [rev cur]
+  | x :: l' => if p x then rev cur :: split_on p [] l' else split_on p (x :: cur) l'
+  end.
+Definition split_top (items : list item) (sep : text) : list (list item) :=
+  split_on (fun x => is_tok x sep) [] items.
+
+(* tokens.py:121 call_like *)
+Definition call_like (prev : option item) : bool :=
+  match prev with
+  | None => false
+  | Some (Grp d _) => match d with DParen | DBrack => true | DBrace => false end
+  | Some (Tok t) =>
+      (is_ident_text t && negb (mem_text t KEYWORDS))
+      || mem_text t [s_self; s_Self; s_super; s_crate; s_fn]
+      || mem_text t [s_gt; s_quest; s_bang]
+  end.
+
+(* tokens.py:217 glue *)
+Definition glue_pair (a b : text) : bool := mem_text (a ++ b) [s_coloncolon; s_arrow; s_fatarrow].
+Fixpoint glue (seq : list item) : list item :=
+  match seq with
+  | [] => []
+  | x :: tl =>
+      match x, tl with
+      | Tok a, Tok b :: rest => if glue_pair a b then Tok (a ++ b) :: glue rest else x :: glue tl
+      | _, _ => x :: glue tl
+      end
+  end.
+
+(* ------------------------------------------------------------------ *)
+(* tokens.py:282 block_tails and the same test in tokens.py:414 trailing_seps *)
+(* r: the items before the final `;`, reversed.  The first item of the last statement (items[j+1]). *)
+Fixpoint last_stmt_first (r : list item) (acc : option item) : option item :=
+  match r with
+  | [] => acc
+  | y :: r' => if is_tok y s_semi || is_grp y DBrace then acc else last_stmt_first r' (Some y)
+  end.
+Definition drops_tail_semi (items : list item) : bool :=
+  match rev items with
+  | y :: r =>
+      is_tok y s_semi &&
+      match last_stmt_first r None with
+      | Some x => tok_in x [s_return; s_break; s_continue]
+      | None => false
+      end
+  | [] => false
+  end.
+Definition block_tail (x : item) : item :=
+  match x with
+  | Grp DBrace items => if drops_tail_semi items then Grp DBrace (removelast items) else x
+  | _ => x
+  end.
+Definition block_tails (seq : list item) : list item := map block_tail seq.
+
+(* tokens.py:298 single_expr_block *)
+Definition item_keywords : list text :=
+  [s_let; s_fn; s_struct; s_enum; s_use; s_mod; s_impl; s_trait; s_type; s_const; s_static; s_macro_rules].
+Definition single_expr_block (g : item) : bool :=
+  match g with
+  | Grp DBrace (first :: more) =>
+      if existsb (fun x => is_tok x s_semi) (first :: more) then false
+      else if is_tok first s_use && match more with y :: _ => is_tok y s_pipe | [] => false end then true
+      else if is_tok first s_hash && match more with y :: _ => is_grp y DBrack | [] => false end then true
+      else match first with
+           | Tok t => negb (starts_with s_DOC t || eqb_text t s_hash || mem_text t item_keywords)
+           | Grp _ _ => true
+           end
+  | _ => false
+  end.
+
+(* the loop  body = [x]; while len(body) == 1 and single_expr_block(body[0]): body = body[0].items *)
+Fixpoint unwrap (x : item) : list item :=
+  if single_expr_block x then
+    match x with
+    | Grp _ its => match its with [y] => unwrap y | _ => its end
+    | Tok _ => [x]
+    end
+  else [x].
+
+(* tokens.py:315 arms_and_closures, first loop: match arm bodies *)
+Fixpoint arms (brace : bool) (seq : list item) : list item :=
+  match seq with
+  | [] => []
+  | x :: rest =>
+      match rest with
+      | nxt :: rest2 =>
+          if is_tok x s_fatarrow && brace && is_grp nxt DBrace then
+            let rest3 := match rest2 with
+                         | a :: r3 => if is_tok a s_comma then r3 else rest2
+                         | [] => rest2
+                         end in
+            x :: unwrap nxt ++ (match rest3 with [] => [] | _ :: _ => [Tok s_comma] end) ++ arms brace rest3
+          else x :: arms brace rest
+      | [] => [x]
+      end
+  end.
+
+(* second loop: closures.  starts_expr(prev) *)
+Definition closure_prev : list text :=
+  [s_eq; s_comma; s_lparen; s_move; s_return; s_fatarrow; s_colon; s_semi; s_async; s_static; s_andand; s_oror; s_bang].
+Definition starts_expr (prev : option item) : bool :=
+  match prev with
+  | None => true
+  | Some (Tok t) => mem_text t closure_prev || mem_text t KEYWORDS
+  | Some (Grp _ _) => false
+  end.
+(* the scan for the closing pipe: (parameters reversed, what follows the closing pipe) *)
+Fixpoint find_close (l : list item) (acc : list item) : option (list item * list item) :=
+  match l with
+  | [] => None
+  | y :: l' =>
+      if is_tok y s_pipe then Some (acc, l')
+      else if is_tok y s_semi || is_tok y s_fatarrow then None
+      else find_close l' (y :: acc)
+  end.
+(* fuel: every iteration consumes at least one item; closures_run gives S (length l).
+   The in-place deletion `del out[close - 1]` survives a failed attempt: the scan resumes on the mutated list. *)
+Fixpoint closures (fuel : nat) (res : list item) (l : list item) : list item :=
+  match fuel with
+  | O => rev res ++ l
+  | S f =>
+      match l with
+      | [] => rev res
+      | x :: rest =>
+          if is_tok x s_pipe && starts_expr (hd_error res) then
+            match find_close rest [] with
+            | None => closures f (x :: res) rest
+            | Some (params_rev, after) =>
+                let params_rev' := match params_rev with
+                                   | y :: p' => if is_tok y s_comma then p' else params_rev
+                                   | [] => []
+                                   end in
+                match after with
+                | b :: after' =>
+                    if single_expr_block b && negb (existsb (fun t => is_tok t s_fatarrow) (x :: rev params_rev'))
+                    then closures f (rev (unwrap b) ++ Tok s_pipe :: params_rev' ++ x :: res) after'
+                    else closures f (x :: res) (rev params_rev' ++ Tok s_pipe :: after)
+                | [] => closures f (x :: res) (rev params_rev' ++ [Tok s_pipe])
+                end
+            end
+          else closures f (x :: res) rest
+      end
+  end.
+Definition closures_run (l : list item) : list item := closures (S (length l)) [] l.
+
+(* third loop: the leading pipe of a match arm pattern *)
+Fixpoint arrow_before_comma (l : list item) : bool :=
+  match l with
+  | [] => false
+  | y :: l' => if is_tok y s_comma then false else if is_tok y s_fatarrow then true else arrow_before_comma l'
+  end.
+Definition arm_start (final : list item) : bool :=
+  match final with
+  | [] => true
+  | p :: f' => is_tok p s_comma || is_grp p DBrace
+               || (is_grp p DBrack && match f' with q :: _ => is_tok q s_hash | [] => false end)
+  end.
+Fixpoint lead_pipes (brace : bool) (final : list item) (l : list item) : list item :=
+  match l with
+  | [] => rev final
+  | x :: rest =>
+      if is_tok x s_pipe && brace && arm_start final && arrow_before_comma rest
+      then lead_pipes brace final rest
+      else lead_pipes brace (x :: final) rest
+  end.
+(* last step: the comma after a block-bodied arm *)
+Fixpoint drop_arm_commas (prev : option item) (l : list item) : list item :=
+  match l with
+  | [] => []
+  | x :: r =>
+      if is_tok x s_comma && is_grp_o prev DBrace then drop_arm_commas (Some x) r
+      else x :: drop_arm_commas (Some x) r
+  end.
+Definition is_brace (ctx : option delim) : bool :=
+  match ctx with Some DBrace => true | _ => false end.
+Definition arms_and_closures (ctx : option delim) (seq : list item) : list item :=
+  let brace := is_brace ctx in
+  let final := lead_pipes brace [] (closures_run (arms brace seq)) in
+  if brace && existsb (fun t => is_tok t s_fatarrow) final then drop_arm_commas None final else final.
+
+(* tokens.py:403 trailing_seps, first loop *)
+Definition last_is (items : list item) (s : text) : bool :=
+  match rev items with y :: _ => is_tok y s | [] => false end.
+Definition count_commas (items : list item) : nat :=
+  length (filter (fun t => is_tok t s_comma) items).
+Definition trim_group (prev : option item) (x : item) : item :=
+  match x with
+  | Grp d items =>
+      let items1 :=
+        if last_is items s_comma
+        then if negb (delim_eqb d DParen) || Nat.leb 2 (count_commas items) || call_like prev
+             then removelast items else items
+        else items in
+      let items2 :=
+        match d with
+        | DBrace => if drops_tail_semi items1 then removelast items1 else items1
+        | _ => items1
+        end in
+      Grp d items2
+  | Tok _ => x
+  end.
+Fixpoint trim_groups (prev : option item) (seq : list item) : list item :=
+  match seq with
+  | [] => []
+  | x :: r => let x' := trim_group prev x in x' :: trim_groups (Some x') r
+  end.
+(* second loop: `,` before `>`, and the last `,` of a where clause *)
+Definition ends_where (x : item) : bool := is_tok x s_semi || is_tok x s_eq || is_grp x DBrace.
+Fixpoint where_commas (in_where : bool) (angle : nat) (seq : list item) : list item :=
+  match seq with
+  | [] => []
+  | x :: r =>
+      let nxt := hd_error r in
+      let w := is_tok x s_where in
+      let in_where1 := w || in_where in
+      let angle1 := if w then O else angle in
+      let angle2 := if in_where1 && is_tok x s_lt then S angle1 else angle1 in
+      let angle3 := if in_where1 && is_tok x s_gt && Nat.ltb 0 angle2 then pred angle2 else angle2 in
+      if is_tok x s_comma && is_tok_o nxt s_gt then where_commas in_where1 angle3 r
+      else if is_tok x s_comma && in_where1 && Nat.eqb angle3 0
+              && match nxt with None => true | Some y => ends_where y end
+      then where_commas in_where1 angle3 r
+      else
+        let in_where2 := if in_where1 && Nat.eqb angle3 0 && ends_where x then false else in_where1 in
+        x :: where_commas in_where2 angle3 r
+  end.
+Definition trailing_seps (seq : list item) : list item :=
+  where_commas false O (trim_groups None seq).
+
+(* tokens.py:235 rewrite, the main loop (out reversed) *)
+Definition vis_kw (x : item) : bool := tok_in x [s_crate; s_self; s_super].
+Fixpoint rewrite_loop (ctx : option delim) (out : list item) (seq : list item) : list item :=
+  match seq with
+  | [] => rev out
+  | x :: rest =>
+      let nxt := hd_error rest in
+      let prev := hd_error out in
+      if is_tok x s_semi && (is_tok_o prev s_semi || (match prev with None => is_brace ctx | Some _ => false end))
+      then rewrite_loop ctx out rest
+      else if is_tok x s_where
+              && match nxt with None => true | Some y => is_grp y DBrace || is_tok y s_semi || is_tok y s_eq end
+      then rewrite_loop ctx out rest
+      else if is_tok x s_colon && match prev with Some p => is_ident p | None => false end
+              && match nxt with None => true | Some y => tok_in y [s_comma; s_gt; s_eq; s_where] end
+              && negb (is_brace ctx)
+      then rewrite_loop ctx out rest
+      else if is_tok x s_extern && negb (is_tok_o nxt s_crate)
+              && negb (match nxt with Some (Tok t) => starts_str_lit t | _ => false end)
+      then rewrite_loop ctx (Tok s_abiC :: x :: out) rest
+      else
+        match rest with
+        | Grp DParen [a; b] :: rest' =>
+            if is_tok x s_pub && is_tok a s_in && vis_kw b
+            then rewrite_loop ctx (Grp DParen [b] :: x :: out) rest'
+            else rewrite_loop ctx (x :: out) rest
+        | Grp DParen (a :: b :: c :: more) :: rest' =>
+            if is_tok x s_pub && is_tok a s_in && is_tok b s_coloncolon
+            then rewrite_loop ctx (Grp DParen (a :: c :: more) :: x :: out) rest'
+            else rewrite_loop ctx (x :: out) rest
+        | _ => rewrite_loop ctx (x :: out) rest
+        end
+  end.
+Definition rewrite (o : opts) (ctx : option delim) (seq : list item) : list item :=
+  let out := block_tails (rewrite_loop ctx [] seq) in
+  let out := if o_macro_def o then out else arms_and_closures ctx out in
+  trailing_seps out.
+
+(* ------------------------------------------------------------------ *)
+(* tokens.py:187 macro_def.  The python function calls norm_seq on the body of each well-formed arm; to keep
+   the recursion structural, norm_seq hands over every item of the macro body paired with the normal form (as
+   code, under _macro_def) of its contents (empty for a string); only the pairs of arm bodies are looked at.
+   tokens.py:207 raw is a deep copy: the identity here. *)
+Definition mitem : Type := item * list item.
+Fixpoint glue2 (seq : list mitem) : list mitem :=
+  match seq with
+  | [] => []
+  | x :: tl =>
+      match x, tl with
+      | (Tok a, _), (Tok b, _) :: rest => if glue_pair a b then (Tok (a ++ b), []) :: glue2 rest else x :: glue2 tl
+      | _, _ => x :: glue2 tl
+      end
+  end.
+Definition macro_arm (arm : list mitem) : list item :=
+  match arm with
+  | [] => []
+  | _ :: _ =>
+      match arm with
+      | [(Grp _ m, _); (a, _); (Grp _ _, nb)] =>
+          if is_tok a s_fatarrow then [Grp DParen m; Tok s_fatarrow; Grp DBrace nb; Tok s_semi]
+          else map fst arm ++ [Tok s_semi]
+      | _ => map fst arm ++ [Tok s_semi]
+      end
+  end.
+Definition macro_def (items : list mitem) : list item :=
+  concat (map macro_arm (split_on (fun x : mitem => is_tok (fst x) s_semi) [] (glue2 items))).
+
+(* tokens.py:135 norm_seq.  out is reversed; skip = inside one of the two loops that swallow `;` *)
+Definition macro_rules_head (out : list item) : bool :=
+  match out with
+  | a :: b :: c :: more =>
+      is_ident a &&
+      ((is_tok b s_bang && is_tok c s_macro_rules)
+       || match more with
+          | d :: _ => is_tok c s_bang && is_tok d s_macro_rules && is_tok b s_dollar
+          | [] => false
+          end)
+  | _ => false
+  end.
+(* the while loop of the nested-parentheses collapse, on the group itself *)
+Fixpoint collapse_parens (g : item) : item :=
+  match g with
+  | Grp DParen [Grp DParen its' as y] => collapse_parens y
+  | _ => g
+  end.
+
+(* the loop of norm_seq; rec o ctx x = norm_seq(x.items, o, ctx) for a group x (the recursion is tied in
+   norm_in below: a recursion over the nested type must be structural in the item) *)
+Section NormLoop.
+Variable rec : opts -> option delim -> item -> list item.
+Fixpoint norm_loop (o : opts) (ctx : option delim) (out : list item) (skip : bool) (items : list item)
+  {struct items} : list item :=
+  match items with
+  | [] => rewrite o ctx (glue (rev out))
+  | x :: rest =>
+      if skip && is_tok x s_semi then norm_loop o ctx out true rest else
+      match x with
+      | Grp d sub =>
+          if macro_rules_head out then
+            let o2 := set_macro_def o in
+            let sub2 := map (fun c => (c, rec o2 (Some DBrace) c)) sub in
+            norm_loop o ctx (Grp DBrace (macro_def sub2) :: out) true rest
+          else
+            let inner := rec o (Some d) x in
+            let prev := hd_error out in
+            let cl := call_like prev in
+            let g := if o_remove_nested_parens o && negb cl then collapse_parens (Grp d inner) else Grp d inner in
+            let lit := match g with
+                       | Grp DParen [Tok t] => if starts_with_digit t && negb cl then Some t else None
+                       | _ => None
+                       end in
+            match lit with
+            | Some t => norm_loop o ctx (Tok t :: out) false rest
+            | None =>
+                if is_tok_o prev s_bang && match out with _ :: y :: _ => is_ident y | _ => false end
+                then norm_loop o ctx (match g with Grp _ its => Grp DParen its | Tok _ => g end :: out) true rest
+                else norm_loop o ctx (g :: out) false rest
+            end
+      | Tok t =>
+          match rest with
+          | y :: rest' =>
+              if eqb_text t s_lt && is_tok y s_gt then
+                let out' := match out with
+                            | p :: out1 => if is_tok p s_coloncolon || is_tok p s_for then out1 else out
+                            | [] => out
+                            end in
+                norm_loop o ctx out' false rest'
+              else norm_loop o ctx (x :: out) false rest
+          | [] => norm_loop o ctx (x :: out) false rest
+          end
+      end
+  end.
+End NormLoop.
+Fixpoint norm_in (o : opts) (ctx : option delim) (x : item) {struct x} : list item :=
+  match x with
+  | Grp _ sub => norm_loop norm_in o ctx [] false sub
+  | Tok _ => []
+  end.
+Definition norm_seq (o : opts) (ctx : option delim) (items : list item) : list item :=
+  norm_loop norm_in o ctx [] false items.
+
+(* tokens.py:447 flatten *)
+Fixpoint flatten_item (x : item) : list text :=
+  match x with
+  | Tok t => [t]
+  | Grp d its => open_text d :: flat_map flatten_item its ++ [close_text d]
+  end.
+Definition flatten (seq : list item) : list text := flat_map flatten_item seq.
+
+(* ------------------------------------------------------------------ *)
+(* sorting: python compares strings by code point, tuples of strings lexicographically *)
+Fixpoint text_leb (a b : text) : bool :=
+  match a, b with
+  | [], _ => true
+  | _ :: _, [] => false
+  | x :: a', y :: b' => if x <? y then true else if y <? x then false else text_leb a' b'
+  end.
+Fixpoint texts_leb (a b : list text) : bool :=
+  match a, b with
+  | [], _ => true
+  | _ :: _, [] => false
+  | x :: a', y :: b' => if eqb_text x y then texts_leb a' b' else text_leb x y
+  end.
+Fixpoint eqb_texts (a b : list text) : bool :=
+  match a, b with
+  | [], [] => true
+  | x :: a', y :: b' => eqb_text x y && eqb_texts a' b'
+  | _, _ => false
+  end.
+(* sorted(..): insertion sort, duplicates kept *)
+Fixpoint insert_sorted (x : text) (l : list text) : list text :=
+  match l with
+  | [] => [x]
+  | y :: l' => if text_leb x y then x :: l else y :: insert_sorted x l'
+  end.
+Definition sort_texts (l : list text) : list text := fold_right insert_sorted [] l.
+(* sorted(set(..)) *)
+Fixpoint insert_uniq (x : text) (l : list text) : list text :=
+  match l with
+  | [] => [x]
+  | y :: l' => if eqb_text x y then l else if text_leb x y then x :: l else y :: insert_uniq x l'
+  end.
+Definition sort_uniq (l : list text) : list text := fold_right insert_uniq [] l.
+
+(* tokens.py:465 use_leaves.  parse walks the comma-separated parts of one brace level with a small state:
+   scanning the path (segments reversed; first = nothing of the part seen yet), just after `as`, or done
+   (python breaks out of the part at a sub-group or after the alias). *)
+Inductive pstate :=
+| PScan (segs : list text) (first : bool)
+| PAlias (segs : list text)
+| PDone (leaves : list text).
+Definition leaf (prefix segs : list text) (alias : option text) : list text :=
+  let path := prefix ++ rev segs in
+  let path := match rev path with
+              | l :: _ :: _ => if eqb_text l s_self then removelast path else path
+              | _ => path
+              end in
+  match rev path with
+  | [] => []
+  | l :: _ =>
+      let alias := match alias with
+                   | Some a => if eqb_text a l then None else alias
+                   | None => None
+                   end in
+      [join s_coloncolon path ++ match alias with
+                                 | Some (c :: a) => s_sp_as_sp ++ c :: a
+                                 | _ => []
+                                 end]
+  end.
+Definition pfinish (prefix : list text) (st : pstate) : list text :=
+  match st with
+  | PScan segs first => if first then [] else leaf prefix segs None
+  | PAlias segs => leaf prefix segs None
+  | PDone ls => ls
+  end.
+Section ParseLoop.
+Variable rec : list text -> item -> list text.       (* rec prefix g = parse(g.items, prefix) *)
+Variable drop_root : bool.
+Fixpoint parse_loop (prefix : list text) (st : pstate) (ts : list item) : list text :=
+  match ts with
+  | [] => pfinish prefix st
+  | t :: ts' =>
+      if is_tok t s_comma then pfinish prefix st ++ parse_loop prefix (PScan [] true) ts' else
+      match st with
+      | PDone _ => parse_loop prefix st ts'
+      | PAlias segs =>
+          parse_loop prefix (PDone (leaf prefix segs match t with Tok a => Some a | Grp _ _ => None end)) ts'
+      | PScan segs first =>
+          match t with
+          | Grp _ _ => parse_loop prefix (PDone (rec (prefix ++ rev segs) t)) ts'
+          | Tok s =>
+              if eqb_text s s_as then parse_loop prefix (PAlias segs) ts'
+              else if eqb_text s s_coloncolon then
+                parse_loop prefix
+                  (PScan (if first && match prefix with [] => true | _ :: _ => false end && negb drop_root
+                          then [] :: segs else segs) false) ts'
+              else parse_loop prefix (PScan (s :: segs) false) ts'
+          end
+      end
+  end.
+End ParseLoop.
+Fixpoint parse_grp (drop_root : bool) (prefix : list text) (x : item) {struct x} : list text :=
+  match x with
+  | Grp _ sub => parse_loop (parse_grp drop_root) drop_root prefix (PScan [] true) sub
+  | Tok _ => []
+  end.
+Definition parse_use (drop_root : bool) (items : list item) : list text :=
+  parse_loop (parse_grp drop_root) drop_root [] (PScan [] true) items.
+Definition use_leaves (drop_root : bool) (items : list item) : list text :=
+  sort_uniq (parse_use drop_root items).
+
+(* tokens.py:504 reorder_runs: statements *)
+Definition is_inner_doc (x : item) : bool :=
+  match x with Tok t => starts_with s_DOCdli t || starts_with s_DOCdbi t | Grp _ _ => false end.
+Definition is_outer_doc (x : item) : bool :=
+  match x with Tok t => starts_with s_DOCdlo t || starts_with s_DOCdbo t | Grp _ _ => false end.
+(* (statements, tail); cur reversed *)
+Fixpoint stmts_split (cur : list item) (seq : list item) : list (list item) * list item :=
+  match seq with
+  | [] => ([], rev cur)
+  | x :: r =>
+      if is_inner_doc x then
+        let (ss, tl) := stmts_split [] r in
+        ((match cur with [] => [] | _ :: _ => [rev cur] end) ++ [x] :: ss, tl)
+      else
+        let cur' := x :: cur in
+        let ends :=
+          is_tok x s_semi
+          || (is_grp x DBrack && match cur with [b; a] => is_tok a s_hash && is_tok b s_bang | _ => false end)
+          || (is_grp x DBrace && negb (existsb (fun t => is_tok t s_use) cur)) in
+        if ends then let (ss, tl) := stmts_split [] r in (rev cur' :: ss, tl)
+        else stmts_split cur' r
+  end.
+
+(* kind(st) *)
+Inductive rkind := RUse | RMod | RExtern.
+Definition rkind_eqb (a b : rkind) : bool :=
+  match a, b with RUse, RUse | RMod, RMod | RExtern, RExtern => true | _, _ => false end.
+(* core[:j] and core[j:] *)
+Fixpoint attr_split (prev_hash : bool) (l : list item) : list item * list item :=
+  match l with
+  | [] => ([], [])
+  | x :: l' =>
+      if is_tok x s_hash then let (a, b) := attr_split true l' in (x :: a, b)
+      else if (is_grp x DBrack && prev_hash) || is_outer_doc x then let (a, b) := attr_split false l' in (x :: a, b)
+      else ([], l)
+  end.
+(* core[j:k] and core[k:] *)
+Definition vis_split (l : list item) : list item * list item :=
+  match l with
+  | x :: l' =>
+      if is_tok x s_pub then
+        match l' with
+        | y :: l'' => if is_grp y DParen then ([x; y], l'') else ([x], l')
+        | [] => ([x], l')
+        end
+      else ([], l)
+  | [] => ([], [])
+  end.
+Definition has_macro_use (attrs : list item) : bool :=
+  existsb (fun g => match g with
+                    | Grp DBrack (y :: _) => is_tok y s_macro_use
+                    | _ => false
+                    end) attrs.
+(* Some (kind, head = st[:k], body = st[k:]) *)
+Definition stmt_kind (st : list item) : option (rkind * list item * list item) :=
+  let (attrs, r1) := attr_split false st in
+  let (vis, body) := vis_split r1 in
+  let head := attrs ++ vis in
+  match body with
+  | b0 :: body' =>
+      if is_tok b0 s_use && last_is st s_semi then Some (RUse, head, body)
+      else if is_tok b0 s_mod && last_is st s_semi && Nat.eqb (length body) 3 then
+        if has_macro_use attrs then None else Some (RMod, head, body)
+      else if is_tok b0 s_extern && match body' with b1 :: _ => is_tok b1 s_crate | [] => false end then
+        if has_macro_use attrs then None else Some (RExtern, head, body)
+      else None
+  | [] => None
+  end.
+
+(* the classes of a run of imports: (head, sorted set of leaves), in first-seen order *)
+Fixpoint add_class (head : list text) (leaves : list text) (cs : list (list text * list text))
+  : list (list text * list text) :=
+  match cs with
+  | [] => [(head, sort_uniq leaves)]
+  | (h, ls) :: cs' =>
+      if eqb_texts h head then (h, fold_right insert_uniq ls leaves) :: cs'
+      else (h, ls) :: add_class head leaves cs'
+  end.
+Fixpoint insert_class (c : list text * list text) (l : list (list text * list text)) :=
+  match l with
+  | [] => [c]
+  | y :: l' => if texts_leb (fst c) (fst y) then c :: l else y :: insert_class c l'
+  end.
+Definition use_string (c : list text * list text) : text :=
+  s_USE ++ join [SP] (fst c) ++ s_rb_lb ++ join s_semi_sp (snd c) ++ s_rbrace.
+Definition item_string (s : text) : text := s_ITEM ++ s ++ s_rbrack.
+
+(* a run: its kind and its statements (head, body, whole statement), reversed *)
+Definition run : Type := rkind * list (list item * list item * list item).
+Definition flush_run (o : opts) (r : option run) : list item :=
+  match r with
+  | None => []
+  | Some (RUse, sts) =>
+      let classes := fold_left (fun cs e => let '(head, body, _) := e in
+                                            add_class (flatten head)
+                                              (parse_use (o_edition2015 o) (removelast (tl body))) cs)
+                               (rev sts) [] in
+      map (fun c => Tok (use_string c)) (fold_right insert_class [] classes)
+  | Some (_, sts) =>
+      map (fun s => Tok (item_string s))
+          (sort_texts (map (fun e => let '(_, _, st) := e in join [SP] (flatten st)) (rev sts)))
+  end.
+Fixpoint runs (o : opts) (cur : option run) (stmts : list (list item)) : list item :=
+  match stmts with
+  | [] => flush_run o cur
+  | st :: r =>
+      match stmt_kind st with
+      | None => flush_run o cur ++ st ++ runs o None r
+      | Some (k, head, body) =>
+          match cur with
+          | Some (k0, sts) =>
+              if rkind_eqb k0 k then runs o (Some (k0, (head, body, st) :: sts)) r
+              else flush_run o cur ++ runs o (Some (k, [(head, body, st)])) r
+          | None => runs o (Some (k, [(head, body, st)])) r
+          end
+      end
+  end.
+Definition reorder_runs (o : opts) (seq : list item) : list item :=
+  let (stmts, tail) := stmts_split [] seq in
+  runs o None stmts ++ tail.
+
+(* tokens.py:584 norm_tree *)
+Fixpoint norm_tree_item (o : opts) (x : item) : item :=
+  match x with
+  | Grp d its => Grp d (reorder_runs o (map (norm_tree_item o) its))
+  | Tok _ => x
+  end.
+Definition norm_tree (o : opts) (seq : list item) : list item :=
+  reorder_runs o (map (norm_tree_item o) seq).
+
+(* tokens.py:594 merge_derives (out reversed) *)
+Definition nonempty {A : Type} (l : list A) : bool := match l with [] => false | _ :: _ => true end.
+Section MergeLoop.
+Variable rec : item -> item.               (* merge_derives inside a group *)
+Fixpoint md_loop (out : list item) (seq : list item) : list item :=
+  match seq with
+  | [] => rev out
+  | x :: rest =>
+      let x' := rec x in
+      match x', out with
+      | Grp DBrack [dv; Grp _ b], h1 :: Grp DBrack [dv0; Grp _ a] :: h3 :: out' =>
+          if is_tok dv s_derive && is_tok h1 s_hash && is_tok dv0 s_derive && is_tok h3 s_hash then
+            md_loop (Grp DBrack [Tok s_derive;
+                                 Grp DParen (a ++ (if nonempty a && nonempty b then [Tok s_comma] else []) ++ b)]
+                     :: h3 :: out') rest
+          else md_loop (x' :: out) rest
+      | _, _ => md_loop (x' :: out) rest
+      end
+  end.
+End MergeLoop.
+Fixpoint md_item (x : item) : item :=
+  match x with
+  | Grp d its => Grp d (md_loop md_item [] its)
+  | Tok _ => x
+  end.
+Definition merge_derives (seq : list item) : list item := md_loop md_item [] seq.
+
+(* tokens.py:616 norm *)
+Definition norm_items (o : opts) (ts : list tok) : list item :=
+  let t := tree o (significant ts) in
+  let t := norm_seq o None t in
+  let t := if o_merge_derives o then merge_derives t else t in
+  norm_tree o t.
+Definition norm (o : opts) (ts : list tok) : list text := flatten (norm_items o ts).
